@@ -186,6 +186,47 @@ theorem ill_typed_rejected (ie : IE) (b : Bytes) :
   · intro h1 h2; simp at h1; subst h1
     simp [encodeElem, encodeVar, show ¬ b.length < 255 by omega, show ¬ b.length ≤ 65535 by omega]
 
+/-! ## The model's own observation satisfies the predicate evaluated on the implementation -/
+
+/-- an element that can be encoded at all occupies at least one byte -/
+theorem encodable_nonempty {ie : IE} {v : Value} {bs : Bytes} (hwf : ie.WF) (h : encodeElem ie v = some bs) :
+    0 < ie.minLen ∧ ie.minLen ≤ bs.length := by
+  have hl := encode_length h
+  obtain ⟨name, id, ty, ent, len⟩ := ie
+  cases ty <;> cases v <;> simp [encodeElem, DataType.width, IE.WF] at h hwf <;>
+    simp [IE.minLen, elemLength, varLen] at hl ⊢ <;> (try subst hwf) <;> (try simp at hl ⊢) <;> (try omega)
+  case octetArray.bytes b =>
+    by_cases h1 : len < 65535 <;> by_cases h2 : b.length < 255 <;> by_cases h3 : len = 65535 <;> simp [h1, h2, h3] at hl ⊢ <;> omega
+  case string.bytes b =>
+    by_cases h2 : b.length < 255 <;> simp [h2] at hl <;> omega
+
+/-- what the `ie rt` operation of the Lean driver computes for a well-typed value: the element's
+    bytes, its reported length, and exactly one record holding the (canonical) value -/
+theorem rt_model {ie : IE} {v : Value} {bs : Bytes} (hwf : ie.WF) (h : encodeElem ie v = some bs) :
+    decodeRecords .keep [ie] bs = .ok [[canon ie v]] := by
+  obtain ⟨hpos, hle⟩ := encodable_nonempty hwf h
+  have hmin : minRecordLen [ie] = ie.minLen := by simp [minRecordLen]
+  have hd : decodeRecord .keep [ie] bs = .ok ([canon ie v], []) := by
+    have := decode_encode [] hwf h
+    simp only [List.append_nil] at this
+    simp [decodeRecord, this]
+  unfold decodeRecords
+  rw [if_neg (by omega)]
+  cases hb : bs.length with
+  | zero => omega
+  | succ n =>
+    simp only [decodeRecordsFuel, hmin]
+    rw [if_neg (by omega), hd]
+    simp only [Outcome.bind_ok]
+    unfold decodeRecordsFuel
+    simp [hmin, hpos]
+
+/-- ... and that observation satisfies `holdsRT` -/
+theorem model_holdsRT {ie : IE} {v : Value} {bs : Bytes} (hwf : ie.WF) (h : encodeElem ie v = some bs) :
+    holdsRT ie v [] (.ok bs (elemLength ie v) [[canon ie v]]) = true := by
+  have hwt : WellTyped ie v := ⟨hwf, by simp [h]⟩
+  simp [holdsRT, hwt, encode_length h]
+
 /-! ## Non-vacuity: the hypotheses are satisfiable, with boundary values -/
 
 def ieU16 : IE := ⟨"sourceTransportPort", 7, .unsigned16, 0, 2⟩
